@@ -154,6 +154,9 @@ def apply_call(g, L, c, form="method"):
             g.add_interactions_from(ps, t=t, e=e)
         elif op in ("add_path", "add_star", "add_cycle"):
             ns = [L.node(n) for n in c["ns"]]
+            if form.endswith("_iter"):      # the node sequence as a one-shot iterator
+                ns = iter(ns)
+                form = form[:-5]
             t = None if c["t"] == NoT else L.time(c["t"])
             if form == "function" or (op != "add_path" and g.is_directed()):
                 # DynDiGraph has no add_star / add_cycle method of its own: the
@@ -161,6 +164,8 @@ def apply_call(g, L, c, form="method"):
                 getattr(dn, op)(g, ns, t)
             else:
                 getattr(g, op)(ns, t)
+        elif op == "touch":
+            touch(g, c["kind"])
         elif op == "clear":
             g.clear()
         elif op == "clear_edges":
@@ -177,6 +182,51 @@ def apply_call(g, L, c, form="method"):
         raise
     except BaseException as ex:  # noqa: B902 - the error path is part of the observation
         return exc_name(ex)
+
+
+def touch(g, kind):
+    """a read-only operation of the library on the live object; the result (or the exception) is thrown away"""
+    import io
+    try:
+        ids = list(g.temporal_snapshots_ids())
+        nodes = list(g.nodes())
+        if kind == "convert":
+            g.to_undirected() if g.is_directed() else g.to_directed()
+        elif kind == "convert_recip":
+            g.to_undirected(reciprocal=True) if g.is_directed() else g.to_directed()
+        elif kind == "slice" and ids:
+            g.time_slice(ids[0], ids[-1])
+            g.time_slice(ids[len(ids) // 2])
+        elif kind == "write":
+            dn.write_snapshots(g, io.BytesIO())
+            dn.write_interactions(g, io.BytesIO())
+        elif kind == "json":
+            from dynetx.readwrite import json_graph
+            json_graph.node_link_data(g)
+        elif kind == "queries":
+            for t in [None] + ids[:3]:
+                g.degree(t=t), g.nodes(t=t), g.interactions(t=t), g.size(t=t), g.number_of_nodes(t=t)
+            g.inter_event_time_distribution()
+            g.interactions_per_snapshots()
+            for n in nodes[:3]:
+                g.get_node_snapshots(n), g.neighbors(n), g.inter_event_time_distribution(n)
+        elif kind == "stats" and not g.is_directed():
+            for fn in (g.coverage, g.uniformity, g.density, g.avg_number_of_nodes):
+                try:
+                    fn()
+                except Exception:
+                    pass
+            for n in nodes[:3]:
+                g.node_presence(n), g.node_contribution(n), g.node_density(n)
+        elif kind == "paths" and len(nodes) <= 4 and len(ids) <= 5:
+            import dynetx.algorithms as al
+            for n in nodes[:2]:
+                al.time_respecting_paths(g, n)
+                al.temporal_dag(g, n)
+    except (KeyboardInterrupt, SystemExit):
+        raise
+    except BaseException:  # noqa: B902 - only the state left behind matters
+        pass
 
 
 # --------------------------------------------------------------------------- projection
